@@ -186,8 +186,13 @@ def harness_run(ctx, family, scen_path, trace_path, opt='', timeout=1800, binary
         p = subprocess.run(cmd, capture_output=True, text=True, timeout=timeout)
     except subprocess.TimeoutExpired:
         raise Machinery('harness run timeout (%s)' % family)
-    if p.returncode != 0:
+    races = p.stderr.count('WARNING: DATA RACE')
+    if p.returncode != 0 and not (races and p.returncode == 66):
         raise Machinery('harness run failed rc=%d: %s %s' % (p.returncode, p.stdout[-2000:], p.stderr[-4000:]))
+    if family == 'alias':
+        # the Go race detector is a runtime observer: its verdict is appended to the trace for the monitor to judge
+        with open(trace_path, 'a') as f:
+            f.write(json.dumps({'ev': 'race', 'n': races, 'first': p.stderr[:1500] if races else ''}) + '\n')
     return p.stdout
 
 
@@ -311,7 +316,7 @@ def write_evidence(ctx, level, coverage, violations, assumptions):
         json.dump(ev, f, indent=1)
 
 
-def finish(ctx, family, monitor, by_sid, viols, events, coverage, assumptions, opt='', replay_only=False, consts=''):
+def finish(ctx, family, monitor, by_sid, viols, events, coverage, assumptions, opt='', replay_only=False, consts='', binary=None, retries=1):
     """classify violation records, confirm new ones by replaying their scenario alone, write evidence, return exit code"""
     twin = [v for v in viols if str(v.get('kind', '')).startswith('twin-')]
     if twin:
@@ -345,8 +350,13 @@ def finish(ctx, family, monitor, by_sid, viols, events, coverage, assumptions, o
             if sc is None:
                 continue
             fam, o = sc.get('_fam', family), sc.get('_opt', opt)
-            rv, _ = run_and_judge(ctx, fam, monitor, [sc], opt=o, shards=1, consts=consts)
-            if any(signature(x) == sig for x in rv):
+            hit = False
+            for _ in range(retries):
+                rv, _ = run_and_judge(ctx, fam, monitor, [sc], opt=o, shards=1, consts=consts, binary=binary)
+                if any(signature(x) == sig for x in rv):
+                    hit = True
+                    break
+            if hit:
                 os.makedirs(rdir, exist_ok=True)
                 h = hashlib.sha1((sig + str(sc.get('sid'))).encode()).hexdigest()[:12]
                 rp = os.path.join(rdir, '%s.json' % h)
